@@ -205,6 +205,9 @@ def tagged_shape(cm, t):
         raise Mismatch("expected exactly one payload member before %s in %r" % (flag, t))
     an, ut = rest[0]
     if ut.kind == "union":
+        if dia(cm, "name") == "c" and not [1 for m_ in cm.structs[ut.tag]["members"] if not m_[2]]:
+            raise Mismatch("the record %r declares an empty union: that is zero bytes in GNU C but one byte in C++ (which includes the same declarations) "
+                           "and ill-formed ISO C, so the position of is_ok depends on the consumer; unit arms must occupy no payload" % t)
         um = dict(struct_members(cm, ut)) if not cm.structs[ut.tag].get("empty") else {}
         extra = set(um) - {"ok", "err"}
         if extra:
@@ -455,6 +458,10 @@ def gen_ret(cx, ir_t, c_t, e, base, ctx="ret"):
         okt, errt = ts.ok_t, ts.err_t
         ok_ir = ir_t.inner if isinstance(ir_t, Opt) else ir_t.ok
         err_ir = None if isinstance(ir_t, Opt) else ir_t.err
+        # a zero-sized (field-less) struct is like unit on the wire: no payload member
+        zst = lambda t: isinstance(t, StructT) and not cx.mod.structs[t.name].fields
+        ok_ir = None if zst(ok_ir) else ok_ir
+        err_ir = None if zst(err_ir) else err_ir
         if (ok_ir is None) != (okt is None):
             raise Mismatch("%s: ok arm is %s in Rust but the record %s an ok member (unit arms must occupy no payload)"
                            % (base, ok_ir.rust() if ok_ir else "()", "has" if okt else "lacks"))
